@@ -379,7 +379,10 @@ func randUD(r *Rng) (udl byte, ud []byte) {
 //
 //	kinds: deliver, deliver-report, deliver-report-error, submit, submit-report,
 //	       submit-report-error, status-report, command
-func smsBase(r *Rng, kind string) tpduSegs {
+//
+// variant v (0, 1, 2, ...) walks the SMS-SUBMIT validity-period formats: v%4 = TP-VPF, and for the enhanced format
+// (v%4 == 1) the four sub-formats starting with hh:mm:ss, so that the first bases of a run cover every decoder branch
+func smsBase(r *Rng, kind string, v int) tpduSegs {
 	var t tpduSegs
 	add := func(n string, b ...byte) { t = append(t, seg{n, b}) }
 	pi := func() byte { return byte(r.Intn(8)) }
@@ -423,6 +426,7 @@ func smsBase(r *Rng, kind string) tpduSegs {
 	case "submit":
 		add("SC", 0)
 		fo := byte(r.Intn(64))<<2 | 1
+		fo = fo&^0x18 | byte(v%4)<<3
 		add("FO", fo)
 		add("MR", r.Byte())
 		add("DA", randAddrSeg(r)...)
@@ -431,7 +435,7 @@ func smsBase(r *Rng, kind string) tpduSegs {
 		switch fo >> 3 & 3 {
 		case 1: // enhanced
 			vp := make([]byte, 7)
-			switch r.Intn(4) {
+			switch (v/4 + 3) % 4 {
 			case 0:
 				vp[0] = byte(r.Intn(2)) << 6
 			case 1:
